@@ -97,8 +97,8 @@ Fixpoint emit_chunks (first : bool) (id h w q : N) (chs : list (list N)) : list 
   end.
 
 (* ---------- identifiers (image.rs: kitty_image_id, kitty_placement_id, kitty_placement_to_pos) ---------- *)
-(* img.hash() % KITTY_MAX_ID + 1 *)
-Definition image_id (hash : N) : N := hash mod KITTY_MAX_ID + 1.
+(* the hash-derived identifier a new content starts from: hash % KITTY_MAX_ID + 1 *)
+Definition image_id_base (hash : N) : N := hash mod KITTY_MAX_ID + 1.
 (* index = row % DIM + (col % DIM) * DIM;  index.min(KITTY_MAX_ID - 1) + 1   (u64, no overflow: index < DIM^2) *)
 Definition placement_index (pos : N * N) : N :=
   let (row, col) := pos in (row mod KITTY_MAX_DIM) + (col mod KITTY_MAX_DIM) * KITTY_MAX_DIM.
@@ -108,11 +108,12 @@ Definition placement_to_pos (pid : N) : N * N :=
   let index := pid - 1 in (index mod KITTY_MAX_DIM, index / KITTY_MAX_DIM).
 
 (* ---------- handler ---------- *)
-(* imgs: HashMap<u64, Image> as an association list with unique keys (the stored image is kept
-   together with its hash value, which draw recomputes from the stored image in handle) *)
-Record kitty := mkKitty { k_imgs : list (N * (image * N)); k_suppress : option N }.
+(* imgs: HashMap<u64, Image>, id -> image whose data has been transmitted, as an association list with
+   unique keys (the stored image is kept together with its hash value, which draw recomputes from the
+   stored image in handle); ids: HashMap<u64, u64>, content hash -> id, never shrinks *)
+Record kitty := mkKitty { k_imgs : list (N * (image * N)); k_ids : list (N * N); k_suppress : option N }.
 
-Definition kitty_new (quiet : bool) : kitty := mkKitty [] (if quiet then Some 1 else None).
+Definition kitty_new (quiet : bool) : kitty := mkKitty [] [] (if quiet then Some 1 else None).
 
 Fixpoint lookup {A} (k : N) (l : list (N * A)) : option A :=
   match l with
@@ -122,10 +123,37 @@ Fixpoint lookup {A} (k : N) (l : list (N * A)) : option A :=
 Definition remove_key {A} (k : N) (l : list (N * A)) : list (N * A) :=
   filter (fun e => negb (fst e =? k)) l.
 
+(* while self.ids.values().any(|taken| *taken == id) { id = id % KITTY_MAX_ID + 1 }
+   (with every id taken the Rust loop does not terminate; the fuel |ids| + 1 suffices whenever fewer than
+   KITTY_MAX_ID ids are in use: KittyProofs.probe_fresh) *)
+Fixpoint probe (fuel : nat) (id : N) (taken : list N) : N :=
+  match fuel with
+  | O => id
+  | S f => if existsb (N.eqb id) taken then probe f (id mod KITTY_MAX_ID + 1) taken else id
+  end.
+
+(* KittyImageHandler::image_id, the value: the remembered id of the content, or for a new content the first
+   free id from the hash-derived one on *)
+Definition id_in (ids : list (N * N)) (hash : N) : N :=
+  match lookup hash ids with
+  | Some id => id
+  | None => probe (S (length ids)) (image_id_base hash) (map snd ids)
+  end.
+(* ... and its effect: the choice is remembered *)
+Definition ids_note (ids : list (N * N)) (hash : N) : list (N * N) :=
+  match lookup hash ids with
+  | Some _ => ids
+  | None => (hash, id_in ids hash) :: ids
+  end.
+
+Definition image_id (st : kitty) (hash : N) : N := id_in (k_ids st) hash.
+Definition note_id (st : kitty) (hash : N) : kitty := mkKitty (k_imgs st) (ids_note (k_ids st) hash) (k_suppress st).
+
 Definition draw (st : kitty) (img : image) (hash : N) (pos : N * N) : list N * kitty :=
   (* if img.height() == 0 || img.width() == 0 { return Ok(()) } *)
   if (im_height img =? 0) || (im_width img =? 0) then ([], st) else
-  let id := image_id hash in
+  let id := image_id st hash in
+  let ids := ids_note (k_ids st) hash in
   let q := match k_suppress st with Some s => s | None => 0 end in
   let '(tx, imgs) :=
     match lookup id (k_imgs st) with
@@ -135,10 +163,10 @@ Definition draw (st : kitty) (img : image) (hash : N) (pos : N * N) : list N * k
                      (chunks (N.to_nat KITTY_CHUNK) (payload_of img)),
          (id, (img, hash)) :: k_imgs st)
     end in
-  (tx ++ gfx (kvs_put id (placement_id pos) q) true [], mkKitty imgs (k_suppress st)).
+  (tx ++ gfx (kvs_put id (placement_id pos) q) true [], mkKitty imgs ids (k_suppress st)).
 
-Definition erase (img : image) (hash : N) (pos : option (N * N)) : list N :=
-  gfx (kvs_del (image_id hash) (option_map placement_id pos)) false [].
+Definition erase (st : kitty) (img : image) (hash : N) (pos : option (N * N)) : list N * kitty :=
+  (gfx (kvs_del (image_id st hash) (option_map placement_id pos)) false [], note_id st hash).
 
 Inductive event :=
 | EvKitty (id : N) (placement : option N) (error : bool)   (* TerminalEvent::KittyImage *)
@@ -161,12 +189,12 @@ Definition handle (st : kitty) (ev : event) : list N * kitty * bool :=
         | Some (img, hash) =>
             let imgs' := remove_key id (k_imgs st) in
             match pl with
-            | None => ([], mkKitty imgs' (k_suppress st), true)
+            | None => ([], mkKitty imgs' (k_ids st) (k_suppress st), true)
             | Some p =>
                 let pos := placement_to_pos p in
-                let '(bytes, st2) := draw (mkKitty imgs' (Some 2)) img hash pos in
+                let '(bytes, st2) := draw (mkKitty imgs' (k_ids st) (Some 2)) img hash pos in
                 (cursor_save ++ cursor_to pos ++ bytes ++ cursor_restore,
-                 mkKitty (k_imgs st2) (k_suppress st), true)
+                 mkKitty (k_imgs st2) (k_ids st2) (k_suppress st), true)
             end
         end
       else ([], st, true)
@@ -182,7 +210,7 @@ Inductive op :=
 Definition step (st : kitty) (o : op) : (list N * N) * kitty :=
   match o with
   | OpDraw img hash pos => let '(b, st') := draw st img hash pos in ((b, 0), st')
-  | OpErase img hash pos => ((erase img hash pos, 0), st)
+  | OpErase img hash pos => let '(b, st') := erase st img hash pos in ((b, 0), st')
   | OpEvent ev => let '(b, st', r) := handle st ev in ((b, if r then 1 else 0), st')
   end.
 
